@@ -166,16 +166,16 @@ func (im *implModel) leaf(cfg *implCfg, atEOF bool) func(absint.Sym) constant.Va
 			case strings.Contains(s.Name, "Stack[") && strings.Contains(s.Name, ").Len"):
 				if len(s.Args) == 1 {
 					switch s.Args[0].Key() {
-					case "load:&s.stack":
+					case "load:&s.stack", "&s.stack":
 						im.obs["len"] = true
 						return constant.MakeInt64(int64(len(cfg.stack)))
-					case "load:&s.returnToStep":
+					case "load:&s.returnToStep", "&s.returnToStep":
 						return constant.MakeInt64(int64(len(cfg.rts)))
 					}
 				}
 			case strings.HasSuffix(s.Name, "LexEvent).Type"):
 				if len(s.Args) == 1 {
-					if inner, ok := s.Args[0].(absint.Sym); ok && inner.Op == "call" && len(inner.Args) >= 1 && inner.Args[0].Key() == "load:&s.stack" {
+					if inner, ok := s.Args[0].(absint.Sym); ok && inner.Op == "call" && len(inner.Args) >= 1 && (inner.Args[0].Key() == "load:&s.stack" || inner.Args[0].Key() == "&s.stack") {
 						if strings.Contains(inner.Name, ").Peek") {
 							im.obs["top"] = true
 							if len(cfg.stack) == 0 {
@@ -891,7 +891,7 @@ func c12struct(c *core.Ctx) {
 	// initial state from newScanner
 	initial := ""
 	if ns := c.P.Func("formats/json", "newScanner"); ns != nil {
-		in := absint.New(absint.Config{InModule: c.P.FuncInModule, Inline: func(f *ssa.Function) bool { return false }})
+		in := absint.New(absint.Config{InModule: c.P.FuncInModule, Inline: func(f *ssa.Function) bool { return f.Pkg == ns.Pkg && sameResult(f, ns) }})
 		for _, o := range in.Run(ns, []absint.Val{absint.Param("file")}, nil) {
 			if p, ok := o.Val.(absint.Ptr); ok {
 				if v, ok := o.St.Mem(absint.Ptr{Base: p.Base, Path: ".step"}.Key()); ok {
